@@ -122,7 +122,7 @@ def check_single_block(ctx, o, fname, proto):
     else:
         for i, k in enumerate(sorted(want, key=lambda k: k[1])):
             if got[k] != want[k]:
-                dd = deep_diff(T, got[k], want[k]) or (got[k], want[k])
+                dd = divergence(T, got[k], want[k]) or (got[k], want[k])
                 bad = "output word %d differs from the spec; innermost difference: code has %s ; spec has %s" % (i, T.show(dd[0])[:150], T.show(dd[1])[:150])
                 break
     # loads from caller memory: only the 32 bytes of cv and the 64 bytes of block
@@ -145,3 +145,64 @@ def rule_R1asm_single(ctx):
                 n += 1
                 check_single_block(ctx, o, fname, op)
     ctx.floor("assembly single-block kernels evaluated", n, 12)
+
+
+def leaf_set(T, t, memo=None):
+    """leaves of a term DAG (memoised)"""
+    memo = {} if memo is None else memo
+    out = set()
+    stack = [t]
+    seen = set()
+    while stack:
+        x = stack.pop()
+        if x in seen:
+            continue
+        seen.add(x)
+        n = T.rev[x]
+        if n[0] in ("sym", "c", "ld32", "ld64", "lo", "hi", "ld8"):
+            out.add(x)
+            continue
+        if n[0] in ("add", "xor", "or", "and"):
+            stack.extend(n[1])
+        elif n[0] in ("rotr", "shl", "shr", "mul"):
+            stack.append(n[2])
+        else:
+            for y in n[1:]:
+                if isinstance(y, int) and 0 <= y < len(T.rev):
+                    stack.append(y)
+    return out
+
+
+def divergence(T, a, b, depth=0, memo=None):
+    """descend to a small differing pair of subterms (diagnostics only)"""
+    memo = {} if memo is None else memo
+    if a == b:
+        return None
+    if (a, b) in memo:
+        return memo[(a, b)]
+    ta, tb = T.rev[a], T.rev[b]
+    res = (a, b)
+    if ta[0] == tb[0] and depth < 200:
+        if ta[0] in ("add", "xor", "or", "and"):
+            sa, sb = set(ta[1]), set(tb[1])
+            da, db = sorted(sa - sb), sorted(sb - sa)
+            if len(da) == len(db) and da:
+                ls = {x: frozenset(leaf_set(T, x)) for x in da + db}
+                for x in da:
+                    cands = [y for y in db if ls[y] == ls[x] and T.rev[y][0] == T.rev[x][0]]
+                    if len(cands) >= 1:
+                        r = divergence(T, x, cands[0], depth + 1, memo)
+                        if r:
+                            res = r
+                            break
+        elif ta[0] in ("rotr", "shl", "shr", "mul"):
+            if ta[1] == tb[1]:
+                res = divergence(T, ta[2], tb[2], depth + 1, memo) or res
+        else:
+            if len(ta) == len(tb):
+                for x, y in zip(ta[1:], tb[1:]):
+                    if x != y and isinstance(x, int) and isinstance(y, int) and x < len(T.rev) and y < len(T.rev):
+                        res = divergence(T, x, y, depth + 1, memo) or res
+                        break
+    memo[(a, b)] = res
+    return res
